@@ -39,6 +39,7 @@ pub fn params_for(prop: &str, base: u64, idx: u64) -> Params {
     let variant = match prop {
         "C10" => r.below(8) as u32,
         "C03" => r.below(8) as u32,
+        "C11" => r.below(8) as u32,
         _ => r.below(4) as u32,
     };
     Params { scenario: prop.to_string(), threads, ops, bound, variant, extra: r.next() as u32 }
